@@ -145,7 +145,15 @@ func cdUnknown(rng *vRand) []byte {
 func cdMessage(rng *vRand) (proto.Message, string) {
 	var m proto.Message
 	kind := ""
-	switch rng.Intn(11) {
+	switch rng.Intn(12) {
+	case 11:
+		// deeply nested, far below the parsers' own limit of 10000 levels
+		d := []int{40, 60, 150, 700}[rng.Intn(4)]
+		v := structpb.NewStringValue(cdString(rng))
+		for i := 0; i < d; i++ {
+			v = structpb.NewListValue(&structpb.ListValue{Values: []*structpb.Value{v}})
+		}
+		m, kind = v, "deep"
 	case 9:
 		m, kind = wrapperspb.Bool(rng.Bool()), "wrapper-bool"
 	case 10:
